@@ -57,6 +57,21 @@ func vC02Loc(fam int, kinds int, embed bool) {
 	m2 := vIte(x2 < i, x2, x2+n)
 	both := vAnd(vCov(as, x1), vCov(as, x2))
 	vAssert("order", vImplies(both, (vFirst(as, x1) < vFirst(as, x2)) == (vFirst(bs, m1) < vFirst(bs, m2))))
+	// multiplicity: a residue denoted twice by overlapping ranges (join(1..5,5..8), a ribosomal slippage) stays
+	// denoted twice; only with points and sites among the parts may a duplicate be absorbed (C06's reductions)
+	allRanged := true
+	grow := 0
+	for _, a := range as {
+		if a.kind != vkRanged {
+			allRanged = false
+		}
+		if embed {
+			grow += vIte(vAnd(a.s < i, i < a.e), n, 0)
+		}
+	}
+	if allRanged {
+		vAssert("multiplicity-kept", vLenA(bs) == vLenA(as)+grow)
+	}
 	// markers
 	a5, a3 := vMarkerCounts(as)
 	b5, b3 := vMarkerCounts(bs)
@@ -81,6 +96,39 @@ func vC02Loc(fam int, kinds int, embed bool) {
 		f0, f1 := as[0], bs[0]
 		l0, l1 := as[len(as)-1], bs[len(bs)-1]
 		vAssert("outer-markers", vAnd(vImplies(vAnd(f1.p5, !f1.rev), f0.p5), vImplies(vAnd(l1.p3, !l1.rev), l0.p3)))
+	}
+	if fam == 1 {
+		// a join written down as such (a parsed or hand-built value in normal form: two ranges that do not
+		// abut, possibly overlapping as in join(1..5,5..8)): every residue keeps its multiplicity
+		q := vGenParts("Q", 2, L, 1)
+		r0, r1 := q[0].(Ranged), q[1].(Ranged)
+		vAssume(r0.End != r1.Start)
+		lit := Joined{r0, r1}
+		var out Location
+		if embed {
+			out = lit.Expand(i, n)
+		} else {
+			out = lit.Shift(i, n)
+		}
+		ls, os := vAtoms(lit), vAtoms(out)
+		g := 0
+		if embed {
+			for _, a := range ls {
+				g += vIte(vAnd(a.s < i, i < a.e), n, 0)
+			}
+		}
+		vAssert("literal-join-keeps-multiplicity", vLenA(os) == vLenA(ls)+g)
+		yy := vIntIn("yy", 0, 2*vCap)
+		vAssume(yy < L+n)
+		w := vOr(vAnd(yy < i, vCovS(ls, yy, false)), vAnd(yy >= i+n, vCovS(ls, yy-n, false)))
+		if embed {
+			st := false
+			for _, a := range ls {
+				st = vOr(st, vAnd(a.s < i, i < a.e))
+			}
+			w = vOr(w, vAnd(vAnd(i <= yy, yy < i+n), st))
+		}
+		vAssert("literal-join-cov", vCovS(os, yy, false) == w)
 	}
 	vObserve("nb", len(bs))
 	vObserve("b0.s", bs[0].s)
